@@ -268,30 +268,101 @@ theorem extract_eq (p : Bytes) (v : View) (hb : baseView p = some v) :
       rw [if_neg h4, if_pos h6, extractV6_of_view _ hproto hpl]
       simp only [Located.payload, View.ep_v6 _ _ hpl]
 
-/-! ### hash inputs, given where the hashers look for the IP header -/
+/-! ### `locate_ip` of the hashers = `parse_packet` of the analyzers, on every byte string -/
 
-theorem hashTcp_v4 (p : Bytes) (off : Nat) (hs : ipStart p = off)
-    (hn : byte (p.drop off) 0 / 16 = 4) (hl : 20 ≤ (p.drop off).length) :
+theorem locEth_eq (p : Bytes) : locEth p = (tryEthernet p).map (fun l => (l.fr.offset, l.ver)) := by
+  unfold locEth tryEthernet
+  simp only [List.length_drop]
+  by_cases h14 : p.length < 14
+  · simp [h14]
+  · by_cases h8 : be16 p 12 = 0x0800
+    · by_cases hl : 34 ≤ p.length
+      · have : 20 ≤ p.length - 14 := by omega
+        simp [h14, h8, hl, this, Framing.offset]
+      · have : ¬ 20 ≤ p.length - 14 := by omega
+        simp [h14, h8, hl, this]
+    · by_cases h6 : be16 p 12 = 0x86DD
+      · by_cases hl : 54 ≤ p.length
+        · have : 40 ≤ p.length - 14 := by omega
+          simp [h14, h8, h6, hl, this, Framing.offset]
+        · have : ¬ 40 ≤ p.length - 14 := by omega
+          simp [h14, h8, h6, hl, this]
+      · simp [h14, h8, h6]
+
+theorem locRaw_eq (p : Bytes) : locRaw p = (tryRawIp p).map (fun l => (l.fr.offset, l.ver)) := by
+  unfold locRaw tryRawIp
+  by_cases h20 : p.length < 20
+  · simp [h20]
+  · by_cases h4 : byte p 0 / 16 = 4
+    · simp [h20, h4, Framing.offset]
+    · by_cases h6 : byte p 0 / 16 = 6
+      · by_cases hl : 40 ≤ p.length
+        · simp [h20, h4, h6, hl, Framing.offset]
+        · simp [h20, h4, h6, hl]
+      · simp [h20, h4, h6]
+
+theorem locNull_eq (p : Bytes) : locNull p = (tryNull p).map (fun l => (l.fr.offset, l.ver)) := by
+  unfold locNull tryNull
+  simp only [List.length_drop, byte_drop, Nat.add_zero]
+  by_cases hc : p.length < 24 ∨ byte p 0 ≠ 0x1e ∨ byte p 1 ≠ 0
+  · simp [hc]
+  · by_cases h4 : byte p 4 / 16 = 4
+    · simp [hc, h4, Framing.offset]
+    · by_cases h6 : byte p 4 / 16 = 6
+      · by_cases hl : 44 ≤ p.length
+        · have : 40 ≤ p.length - 4 := by omega
+          simp [hc, h4, h6, hl, this, Framing.offset]
+        · have : ¬ 40 ≤ p.length - 4 := by omega
+          simp [hc, h4, h6, hl, this]
+      · simp [hc, h4, h6]
+
+/-- **The repaired hashers look where the analyzers look**: for every byte string `locate_ip`
+returns the offset and IP version of the packet `parse_packet` hands to the analyzer, and nothing when
+`parse_packet` rejects the frame. -/
+theorem locateIp_eq_parse (p : Bytes) :
+    locateIp p = (parsePacket p).map (fun l => (l.fr.offset, l.ver)) := by
+  unfold locateIp parsePacket
+  rw [locEth_eq, locRaw_eq, locNull_eq]
+  cases tryEthernet p with
+  | some l => rfl
+  | none =>
+    cases tryRawIp p with
+    | some l => rfl
+    | none => rfl
+
+/-- The IP bytes the parser hands over start at the framing's offset. -/
+theorem parsePacket_ip (p : Bytes) (l : Located) (h : parsePacket p = some l) :
+    l.ip = p.drop l.fr.offset := by
+  rcases parse_cases p l h with he | ⟨_, hr⟩ | ⟨_, _, hn⟩
+  · obtain ⟨_, ⟨rfl, _⟩ | ⟨rfl, _⟩⟩ := tryEthernet_some p l he <;> rfl
+  · obtain ⟨_, ⟨rfl, _⟩ | ⟨rfl, _⟩⟩ := tryRawIp_some p l hr <;> simp [Framing.offset]
+  · obtain ⟨_, _, _, ⟨rfl, _⟩ | ⟨rfl, _⟩⟩ := tryNull_some p l hn <;> rfl
+
+theorem locateIp_of_parse (p : Bytes) (l : Located) (h : parsePacket p = some l) :
+    locateIp p = some (l.fr.offset, l.ver) ∧ l.ip = p.drop l.fr.offset := by
+  refine ⟨?_, parsePacket_ip p l h⟩
+  rw [locateIp_eq_parse, h]; rfl
+
+/-! ### hash inputs, given where the hashers found the IP header -/
+
+theorem hashTcp_v4 (p : Bytes) (off : Nat) (hs : locateIp p = some (off, .v4))
+    (hl : 20 ≤ (p.drop off).length) :
     hashInputTcp p = .bytes (slice (p.drop off) 12 4) := by
   unfold hashInputTcp
   rw [hs]
-  simp only [List.length_drop] at hl
-  rw [if_neg (by omega)]
-  simp only [hn, if_true]
-  rw [if_pos (by simp only [List.length_drop]; omega)]
+  simp only
+  rw [if_pos (by omega)]
 
-theorem hashTcp_v6 (p : Bytes) (off : Nat) (hs : ipStart p = off)
-    (hn : byte (p.drop off) 0 / 16 = 6) (hl : 24 ≤ (p.drop off).length) :
+theorem hashTcp_v6 (p : Bytes) (off : Nat) (hs : locateIp p = some (off, .v6))
+    (hl : 24 ≤ (p.drop off).length) :
     hashInputTcp p = .bytes (slice (p.drop off) 8 16) := by
   unfold hashInputTcp
   rw [hs]
-  simp only [List.length_drop] at hl
-  rw [if_neg (by omega)]
-  simp only [hn]
-  rw [if_neg (by omega), if_pos trivial, if_pos (by simp only [List.length_drop]; omega)]
+  simp only
+  rw [if_pos (by omega)]
 
-theorem hashHttp_v4 (p : Bytes) (off : Nat) (hs : ipStart p = off)
-    (hn : byte (p.drop off) 0 / 16 = 4) (hl : 40 ≤ (p.drop off).length)
+theorem hashHttp_v4 (p : Bytes) (off : Nat) (hs : locateIp p = some (off, .v4))
+    (hl : 40 ≤ (p.drop off).length)
     (hp : byte (p.drop off) 9 = 6) (hlen : v4PortOff (p.drop off) + 4 ≤ (p.drop off).length) :
     hashInputHttp p = canonFlow (slice (p.drop off) 12 4) (slice (p.drop off) 16 4)
       (be16 (p.drop off) (v4PortOff (p.drop off))) (be16 (p.drop off) (v4PortOff (p.drop off) + 2)) := by
@@ -299,28 +370,26 @@ theorem hashHttp_v4 (p : Bytes) (off : Nat) (hs : ipStart p = off)
   rw [hs]
   have hl' := hl
   simp only [List.length_drop] at hl'
+  simp only
   rw [if_neg (by omega)]
-  simp only [hn, if_true]
   unfold hashV4FlowHttp
   rw [if_neg (by omega), if_neg (by omega), if_neg (by omega)]
 
-theorem hashHttp_v6 (p : Bytes) (off : Nat) (hs : ipStart p = off)
-    (hn : byte (p.drop off) 0 / 16 = 6) (hl : 44 ≤ (p.drop off).length)
-    (hp : byte (p.drop off) 6 = 6) :
+theorem hashHttp_v6 (p : Bytes) (off : Nat) (hs : locateIp p = some (off, .v6))
+    (hl : 44 ≤ (p.drop off).length) (hp : byte (p.drop off) 6 = 6) :
     hashInputHttp p = canonFlow (slice (p.drop off) 8 16) (slice (p.drop off) 24 16)
       (be16 (p.drop off) 40) (be16 (p.drop off) 42) := by
   unfold hashInputHttp
   rw [hs]
   have hl' := hl
   simp only [List.length_drop] at hl'
+  simp only
   rw [if_neg (by omega)]
-  simp only [hn]
-  rw [if_neg (by omega), if_pos trivial]
   unfold hashV6FlowHttp
   rw [if_neg (by omega), if_neg (by omega), if_neg (by omega)]
 
-theorem hashTls_v4 (p : Bytes) (off : Nat) (hs : ipStart p = off)
-    (hn : byte (p.drop off) 0 / 16 = 4) (hl : 40 ≤ (p.drop off).length)
+theorem hashTls_v4 (p : Bytes) (off : Nat) (hs : locateIp p = some (off, .v4))
+    (hl : 40 ≤ (p.drop off).length)
     (hp : byte (p.drop off) 9 = 6) (hlen : v4PortOff (p.drop off) + 4 ≤ (p.drop off).length) :
     hashInputTls p = some (.flow (slice (p.drop off) 12 4) (slice (p.drop off) 16 4)
       (be16 (p.drop off) (v4PortOff (p.drop off))) (be16 (p.drop off) (v4PortOff (p.drop off) + 2))) := by
@@ -328,23 +397,21 @@ theorem hashTls_v4 (p : Bytes) (off : Nat) (hs : ipStart p = off)
   rw [hs]
   have hl' := hl
   simp only [List.length_drop] at hl'
+  simp only
   rw [if_neg (by omega)]
-  simp only [hn, if_true]
   unfold hashV4FlowTls
   rw [if_neg (by omega), if_neg (by omega), if_neg (by omega)]
 
-theorem hashTls_v6 (p : Bytes) (off : Nat) (hs : ipStart p = off)
-    (hn : byte (p.drop off) 0 / 16 = 6) (hl : 44 ≤ (p.drop off).length)
-    (hp : byte (p.drop off) 6 = 6) :
+theorem hashTls_v6 (p : Bytes) (off : Nat) (hs : locateIp p = some (off, .v6))
+    (hl : 44 ≤ (p.drop off).length) (hp : byte (p.drop off) 6 = 6) :
     hashInputTls p = some (.flow (slice (p.drop off) 8 16) (slice (p.drop off) 24 16)
       (be16 (p.drop off) 40) (be16 (p.drop off) 42)) := by
   unfold hashInputTls
   rw [hs]
   have hl' := hl
   simp only [List.length_drop] at hl'
+  simp only
   rw [if_neg (by omega)]
-  simp only [hn]
-  rw [if_neg (by omega), if_pos trivial]
   unfold hashV6FlowTls
   rw [if_neg (by omega), if_neg (by omega), if_neg (by omega)]
 
@@ -391,42 +458,6 @@ theorem canonFlow_swap (s d : Bytes) (sp dp : Nat) : canonFlow s d sp dp = canon
     · omega
 
 
-/-- Where the hashers look, for a frame the analyzers accept outside the framing classes. -/
-theorem seen_locate (p : Bytes) (v : View) (hb : baseView p = some v)
-    (h1 : ¬ KF.C18.looksLikeEthernet v.loc.fr p) (h2 : ¬ KF.C18.nullFraming v.loc.fr)
-    (h3 : ¬ KF.C18.versionNibble v.loc) :
-    v.loc.ip = p.drop (ipStart p) ∧
-      byte v.loc.ip 0 / 16 = (match v.loc.ver with | .v4 => 4 | .v6 => 6) := by
-  obtain ⟨l, hl, hproto, hpl, rfl⟩ := baseView_some p v hb
-  rcases parse_cases p l hl with he | ⟨he, hr⟩ | ⟨he, hr, hn⟩
-  · obtain ⟨h14, ⟨rfl, h8⟩ | ⟨rfl, h8, h6⟩⟩ := tryEthernet_some p l he
-    · simp only [Located.payload] at hpl
-      have hlen := v4Payload_length (p.drop 14)
-      simp only [List.length_drop, v4PayloadStart] at hlen
-      have hle : looksEth p = true := by
-        unfold looksEth; simp [h8]; omega
-      refine ⟨by simp [ipStart, hle], ?_⟩
-      simp only [KF.C18.versionNibble, true_and, Classical.not_not] at h3
-      exact h3
-    · simp only [Located.payload] at hpl
-      have hlen := v6Payload_length (p.drop 14)
-      simp only [List.length_drop] at hlen
-      have hle : looksEth p = true := by
-        unfold looksEth; simp [h6]; omega
-      refine ⟨by simp [ipStart, hle], ?_⟩
-      simp only [KF.C18.versionNibble, true_and, Classical.not_not] at h3
-      exact h3
-  · obtain ⟨h20, ⟨rfl, h4⟩ | ⟨rfl, h4, h6⟩⟩ := tryRawIp_some p l hr
-    · have hle : looksEth p = false := by
-        simp only [KF.C18.looksLikeEthernet] at h1
-        cases h : looksEth p <;> simp_all
-      exact ⟨by simp [ipStart, hle], h4⟩
-    · have hle : looksEth p = false := by
-        simp only [KF.C18.looksLikeEthernet] at h1
-        cases h : looksEth p <;> simp_all
-      exact ⟨by simp [ipStart, hle], h6⟩
-  · obtain ⟨_, _, _, ⟨rfl, _⟩ | ⟨rfl, _⟩⟩ := tryNull_some p l hn <;> simp [KF.C18.nullFraming] at h2
-
 /-- What an accepted view guarantees about the IP packet (the hashers' length tests pass). -/
 theorem view_v4_facts (ip : Bytes) (hproto : v4Proto ip = 6) (hpl : 20 ≤ (v4Payload ip).length) :
     40 ≤ ip.length ∧ byte ip 9 = 6 ∧ v4PortOff ip + 4 ≤ ip.length := by
@@ -453,26 +484,31 @@ theorem analyzerView_base (a : Analyzer) (p : Bytes) (v : View) (h : analyzerVie
     · simpa using h
     · simp at h
 
-/-- TCP hasher on an accepted frame outside the classes: the analyzer's source address. -/
-theorem hashInputTcp_seen (a : Analyzer) (p : Bytes) (v : View) (hv : analyzerView a p = some v)
-    (hk : ¬ KF.C18.seen a p) : hashInputTcp p = .bytes v.loc.src := by
+/-- Where the hashers look, for a frame the analyzers accept: at the packet the analyzer decodes. -/
+theorem view_locate (p : Bytes) (v : View) (hb : baseView p = some v) :
+    locateIp p = some (v.loc.fr.offset, v.loc.ver) ∧ v.loc.ip = p.drop v.loc.fr.offset := by
+  obtain ⟨l, hl, _, _, rfl⟩ := baseView_some p v hb
+  exact locateIp_of_parse p l hl
+
+/-- TCP hasher on every accepted frame: the analyzer's source address. -/
+theorem hashInputTcp_view (a : Analyzer) (p : Bytes) (v : View) (hv : analyzerView a p = some v) :
+    hashInputTcp p = .bytes v.loc.src := by
   have hb := analyzerView_base a p v hv
-  simp only [KF.C18.seen, hv, not_or] at hk
-  obtain ⟨hip, hnib⟩ := seen_locate p v hb hk.1 hk.2.1 hk.2.2
+  obtain ⟨hloc, hip⟩ := view_locate p v hb
   obtain ⟨l, _, hproto, hpl, rfl⟩ := baseView_some p v hb
   obtain ⟨fr, ver, ip⟩ := l
-  simp only at hip hnib
+  simp only at hip hloc
   cases ver with
   | v4 =>
     simp only [Located.proto, Located.payload] at hproto hpl
     obtain ⟨h40, _, _⟩ := view_v4_facts ip hproto hpl
     subst hip
-    simpa [Located.src] using hashTcp_v4 p (ipStart p) rfl hnib (by omega)
+    simpa [Located.src] using hashTcp_v4 p fr.offset hloc (by omega)
   | v6 =>
     simp only [Located.proto, Located.payload] at hproto hpl
     obtain ⟨h60, _⟩ := view_v6_facts ip hproto hpl
     subst hip
-    simpa [Located.src] using hashTcp_v6 p (ipStart p) rfl hnib (by omega)
+    simpa [Located.src] using hashTcp_v6 p fr.offset hloc (by omega)
 
 /-- the ports the hashers read are the analyzer's (both at `max(ihl*4, 20)`) -/
 theorem ep_of_view_v4 (fr : Framing) (ip : Bytes) (hpl : 20 ≤ (v4Payload ip).length) :
@@ -480,15 +516,14 @@ theorem ep_of_view_v4 (fr : Framing) (ip : Bytes) (hpl : 20 ≤ (v4Payload ip).l
       ⟨.v4, slice ip 12 4, slice ip 16 4, be16 ip (v4PortOff ip), be16 ip (v4PortOff ip + 2)⟩ := by
   rw [View.ep_v4 ip fr hpl, v4PortOff_eq]
 
-theorem hashInputHttp_seen (a : Analyzer) (p : Bytes) (v : View) (hv : analyzerView a p = some v)
-    (hk : ¬ KF.C18.seen a p) :
+/-- HTTP hasher on every accepted frame: the analyzer's endpoints in canonical order. -/
+theorem hashInputHttp_view (a : Analyzer) (p : Bytes) (v : View) (hv : analyzerView a p = some v) :
     hashInputHttp p = canonFlow v.ep.src v.ep.dst v.ep.sp v.ep.dp := by
   have hb := analyzerView_base a p v hv
-  simp only [KF.C18.seen, hv, not_or] at hk
-  obtain ⟨hip, hnib⟩ := seen_locate p v hb hk.1 hk.2.1 hk.2.2
+  obtain ⟨hloc, hip⟩ := view_locate p v hb
   obtain ⟨l, _, hproto, hpl, rfl⟩ := baseView_some p v hb
   obtain ⟨fr, ver, ip⟩ := l
-  simp only at hip hnib
+  simp only at hip hloc
   cases ver with
   | v4 =>
     simp only [Located.proto, Located.payload] at hproto hpl
@@ -496,24 +531,23 @@ theorem hashInputHttp_seen (a : Analyzer) (p : Bytes) (v : View) (hv : analyzerV
     simp only [Located.payload]
     rw [ep_of_view_v4 fr ip hpl]
     subst hip
-    exact hashHttp_v4 p (ipStart p) rfl hnib h40 hp6 hlen
+    exact hashHttp_v4 p fr.offset hloc h40 hp6 hlen
   | v6 =>
     simp only [Located.proto, Located.payload] at hproto hpl
     obtain ⟨h60, hp6⟩ := view_v6_facts ip hproto hpl
     simp only [Located.payload]
     rw [View.ep_v6 ip fr hpl]
     subst hip
-    exact hashHttp_v6 p (ipStart p) rfl hnib (by omega) hp6
+    exact hashHttp_v6 p fr.offset hloc (by omega) hp6
 
-theorem hashInputTls_seen (a : Analyzer) (p : Bytes) (v : View) (hv : analyzerView a p = some v)
-    (hk : ¬ KF.C18.seen a p) :
+/-- TLS hasher on every accepted frame: the analyzer's directed 4-tuple (never discarded). -/
+theorem hashInputTls_view (a : Analyzer) (p : Bytes) (v : View) (hv : analyzerView a p = some v) :
     hashInputTls p = some (.flow v.ep.src v.ep.dst v.ep.sp v.ep.dp) := by
   have hb := analyzerView_base a p v hv
-  simp only [KF.C18.seen, hv, not_or] at hk
-  obtain ⟨hip, hnib⟩ := seen_locate p v hb hk.1 hk.2.1 hk.2.2
+  obtain ⟨hloc, hip⟩ := view_locate p v hb
   obtain ⟨l, _, hproto, hpl, rfl⟩ := baseView_some p v hb
   obtain ⟨fr, ver, ip⟩ := l
-  simp only at hip hnib
+  simp only at hip hloc
   cases ver with
   | v4 =>
     simp only [Located.proto, Located.payload] at hproto hpl
@@ -521,14 +555,14 @@ theorem hashInputTls_seen (a : Analyzer) (p : Bytes) (v : View) (hv : analyzerVi
     simp only [Located.payload]
     rw [ep_of_view_v4 fr ip hpl]
     subst hip
-    exact hashTls_v4 p (ipStart p) rfl hnib h40 hp6 hlen
+    exact hashTls_v4 p fr.offset hloc h40 hp6 hlen
   | v6 =>
     simp only [Located.proto, Located.payload] at hproto hpl
     obtain ⟨h60, hp6⟩ := view_v6_facts ip hproto hpl
     simp only [Located.payload]
     rw [View.ep_v6 ip fr hpl]
     subst hip
-    exact hashTls_v6 p (ipStart p) rfl hnib (by omega) hp6
+    exact hashTls_v6 p fr.offset hloc (by omega) hp6
 
 
 theorem wireV4_some (ip : Bytes) (e : Ep) (h : wireV4 ip = some e) :
@@ -552,71 +586,155 @@ theorem wireV6_some (ip : Bytes) (e : Ep) (h : wireV6 ip = some e) :
     exact ⟨hc.1, hc.2.1, hc.2.2, h.symm⟩
   · simp at h
 
-/-- A well-formed frame of a declared link type, outside the classes: the hashers look at the
-right offset. -/
-theorem wire_locate (fr : Framing) (p : Bytes) (e : Ep) (hw : wireEndpoints fr p = some e)
-    (hk : ¬ KF.C18.wire fr p) :
-    wireV4 (p.drop (ipStart p)) = some e ∨ wireV6 (p.drop (ipStart p)) = some e := by
-  simp only [KF.C18.wire, not_or, KF.C18.looksLikeEthernet, KF.C18.nullFraming] at hk
-  cases fr with
-  | eth =>
-    simp only [wireEndpoints] at hw
-    split at hw; · simp at hw
-    rename_i h14
-    split at hw
-    · rename_i h8
-      obtain ⟨_, h5, hlen, _, _⟩ := wireV4_some _ _ hw
+/-- Ethernet frames are always taken for Ethernet: a well-formed Ethernet frame honours its link type. -/
+theorem linkHonoured_eth (p : Bytes) (e : Ep) (hw : wireEndpoints .eth p = some e) :
+    LinkHonoured .eth p := by
+  simp only [wireEndpoints] at hw
+  split at hw; · simp at hw
+  rename_i h14
+  have key : ∀ l, tryEthernet p = some l → LinkHonoured .eth p := by
+    intro l hl
+    have hfr : l.fr = .eth := by
+      obtain ⟨_, ⟨rfl, _⟩ | ⟨rfl, _⟩⟩ := tryEthernet_some p l hl <;> rfl
+    unfold LinkHonoured parsePacket; rw [hl]; simp [hfr]
+  split at hw
+  · rename_i h8
+    obtain ⟨_, _, hlen, _, _⟩ := wireV4_some _ _ hw
+    simp only [List.length_drop] at hlen
+    refine key ⟨.eth, .v4, p.drop 14⟩ ?_
+    unfold tryEthernet
+    rw [if_neg h14, if_pos h8, if_pos (by simp only [List.length_drop]; omega)]
+  · split at hw
+    · rename_i h8 h6
+      obtain ⟨_, hlen, _, _⟩ := wireV6_some _ _ hw
       simp only [List.length_drop] at hlen
-      have hle : looksEth p = true := by unfold looksEth; simp [h8]; omega
-      left; simpa [ipStart, hle] using hw
-    · split at hw
-      · rename_i h8 h6
-        obtain ⟨_, hlen, _, _⟩ := wireV6_some _ _ hw
-        simp only [List.length_drop] at hlen
-        have hle : looksEth p = true := by unfold looksEth; simp [h6]; omega
-        right; simpa [ipStart, hle] using hw
-      · simp at hw
-  | raw =>
-    have hle : looksEth p = false := by
-      cases h : looksEth p <;> simp_all
+      refine key ⟨.eth, .v6, p.drop 14⟩ ?_
+      unfold tryEthernet
+      rw [if_neg h14, if_neg h8, if_pos h6, if_pos (by simp only [List.length_drop]; omega)]
+    · simp at hw
+
+/-- A well-formed raw IP frame honours its link type exactly when the parser's Ethernet strategy
+does not fire (bytes 12–13 are not `08 00` with ≥ 34 bytes / `86 dd` with ≥ 54 bytes). -/
+theorem linkHonoured_raw (p : Bytes) (e : Ep) (hw : wireEndpoints .raw p = some e) :
+    LinkHonoured .raw p ↔ tryEthernet p = none := by
+  have hraw : ∃ l, tryRawIp p = some l ∧ l.fr = .raw := by
     simp only [wireEndpoints] at hw
-    simp only [ipStart, hle, Bool.false_eq_true, if_false, List.drop_zero]
     split at hw
-    · rename_i e' he'; left; rw [he']; exact hw
-    · right; exact hw
-  | null => simp at hk
+    · rename_i e' he'
+      obtain ⟨hn, _, hlen, _, _⟩ := wireV4_some _ _ he'
+      refine ⟨⟨.raw, .v4, p⟩, ?_, rfl⟩
+      unfold tryRawIp; rw [if_neg (by omega), if_pos hn]
+    · obtain ⟨hn, hlen, _, _⟩ := wireV6_some _ _ hw
+      refine ⟨⟨.raw, .v6, p⟩, ?_, rfl⟩
+      unfold tryRawIp; rw [if_neg (by omega), if_neg (by omega), if_pos hn, if_pos (by omega)]
+  obtain ⟨l, hl, hfr⟩ := hraw
+  constructor
+  · intro h
+    cases he : tryEthernet p with
+    | none => rfl
+    | some l' =>
+      have hfr' : l'.fr = .eth := by
+        obtain ⟨_, ⟨rfl, _⟩ | ⟨rfl, _⟩⟩ := tryEthernet_some p l' he <;> rfl
+      unfold LinkHonoured parsePacket at h
+      rw [he] at h
+      simp [hfr'] at h
+  · intro he
+    unfold LinkHonoured parsePacket
+    rw [he, hl]; simp [hfr]
+
+/-- A well-formed frame of a declared link type which the parser takes for that link type: the
+hashers look at the right offset and decide on the right IP version. -/
+theorem wire_locate (fr : Framing) (p : Bytes) (e : Ep) (hw : wireEndpoints fr p = some e)
+    (hh : LinkHonoured fr p) :
+    ∃ off, (locateIp p = some (off, .v4) ∧ wireV4 (p.drop off) = some e) ∨
+           (locateIp p = some (off, .v6) ∧ wireV6 (p.drop off) = some e) := by
+  unfold LinkHonoured at hh
+  cases hp : parsePacket p with
+  | none => simp [hp] at hh
+  | some l =>
+    simp only [hp, Option.map_some, Option.some.injEq] at hh
+    obtain ⟨hloc, _⟩ := locateIp_of_parse p l hp
+    rw [hh] at hloc
+    refine ⟨fr.offset, ?_⟩
+    rcases parse_cases p l hp with he | ⟨_, hr⟩ | ⟨_, _, hn⟩
+    · obtain ⟨h14, hl⟩ := tryEthernet_some p l he
+      have hfr : fr = .eth := by rcases hl with ⟨rfl, _⟩ | ⟨rfl, _⟩ <;> exact hh.symm
+      subst hfr
+      simp only [wireEndpoints] at hw
+      rw [if_neg (by omega)] at hw
+      rcases hl with ⟨rfl, h8⟩ | ⟨rfl, h8, h6⟩
+      · rw [if_pos h8] at hw; left; exact ⟨hloc, hw⟩
+      · rw [if_neg h8, if_pos h6] at hw; right; exact ⟨hloc, hw⟩
+    · obtain ⟨h20, hl⟩ := tryRawIp_some p l hr
+      have hfr : fr = .raw := by rcases hl with ⟨rfl, _⟩ | ⟨rfl, _⟩ <;> exact hh.symm
+      subst hfr
+      simp only [wireEndpoints] at hw
+      simp only [Framing.offset, List.drop_zero]
+      rcases hl with ⟨rfl, h4⟩ | ⟨rfl, h4, h6⟩
+      · left
+        refine ⟨hloc, ?_⟩
+        split at hw
+        · rename_i e' he'; rw [he']; exact hw
+        · obtain ⟨hn, _⟩ := wireV6_some _ _ hw; omega
+      · right
+        refine ⟨hloc, ?_⟩
+        split at hw
+        · rename_i e' he'; obtain ⟨hn, _⟩ := wireV4_some _ _ he'; omega
+        · exact hw
+    · obtain ⟨h24, _, _, hl⟩ := tryNull_some p l hn
+      have hfr : fr = .null := by rcases hl with ⟨rfl, _⟩ | ⟨rfl, _⟩ <;> exact hh.symm
+      subst hfr
+      simp only [wireEndpoints] at hw
+      rw [if_neg (by omega)] at hw
+      simp only [Framing.offset]
+      have hnib : byte (p.drop 4) 0 = byte p 4 := by rw [byte_drop]
+      rcases hl with ⟨rfl, h4⟩ | ⟨rfl, h4, h6⟩
+      · left
+        refine ⟨hloc, ?_⟩
+        split at hw
+        · exact hw
+        · split at hw
+          · obtain ⟨hn, _⟩ := wireV6_some _ _ hw; omega
+          · simp at hw
+      · right
+        refine ⟨hloc, ?_⟩
+        split at hw
+        · obtain ⟨hn, _⟩ := wireV4_some _ _ hw; omega
+        · split at hw
+          · exact hw
+          · simp at hw
 
 theorem hashInputTcp_wire (fr : Framing) (p : Bytes) (e : Ep) (hw : wireEndpoints fr p = some e)
-    (hk : ¬ KF.C18.wire fr p) : hashInputTcp p = .bytes e.src := by
-  rcases wire_locate fr p e hw hk with h | h
+    (hh : LinkHonoured fr p) : hashInputTcp p = .bytes e.src := by
+  obtain ⟨off, ⟨hloc, h⟩ | ⟨hloc, h⟩⟩ := wire_locate fr p e hw hh
   · obtain ⟨hn, _, hlen, _, rfl⟩ := wireV4_some _ _ h
-    exact hashTcp_v4 p (ipStart p) rfl hn (by omega)
+    exact hashTcp_v4 p off hloc (by omega)
   · obtain ⟨hn, hlen, _, rfl⟩ := wireV6_some _ _ h
-    exact hashTcp_v6 p (ipStart p) rfl hn (by omega)
+    exact hashTcp_v6 p off hloc (by omega)
 
 theorem hashInputHttp_wire (fr : Framing) (p : Bytes) (e : Ep) (hw : wireEndpoints fr p = some e)
-    (hk : ¬ KF.C18.wire fr p) : hashInputHttp p = canonFlow e.src e.dst e.sp e.dp := by
-  rcases wire_locate fr p e hw hk with h | h
+    (hh : LinkHonoured fr p) : hashInputHttp p = canonFlow e.src e.dst e.sp e.dp := by
+  obtain ⟨off, ⟨hloc, h⟩ | ⟨hloc, h⟩⟩ := wire_locate fr p e hw hh
   · obtain ⟨hn, h5, hlen, hp, rfl⟩ := wireV4_some _ _ h
-    have hoff : v4PortOff (p.drop (ipStart p)) = v4Ihl (p.drop (ipStart p)) * 4 := by
+    have hoff : v4PortOff (p.drop off) = v4Ihl (p.drop off) * 4 := by
       unfold v4PortOff; omega
-    have := hashHttp_v4 p (ipStart p) rfl hn (by omega) hp (by omega)
+    have := hashHttp_v4 p off hloc (by omega) hp (by omega)
     rw [hoff] at this
     exact this
   · obtain ⟨hn, hlen, hp, rfl⟩ := wireV6_some _ _ h
-    exact hashHttp_v6 p (ipStart p) rfl hn (by omega) hp
+    exact hashHttp_v6 p off hloc (by omega) hp
 
 theorem hashInputTls_wire (fr : Framing) (p : Bytes) (e : Ep) (hw : wireEndpoints fr p = some e)
-    (hk : ¬ KF.C18.wire fr p) : hashInputTls p = some (.flow e.src e.dst e.sp e.dp) := by
-  rcases wire_locate fr p e hw hk with h | h
+    (hh : LinkHonoured fr p) : hashInputTls p = some (.flow e.src e.dst e.sp e.dp) := by
+  obtain ⟨off, ⟨hloc, h⟩ | ⟨hloc, h⟩⟩ := wire_locate fr p e hw hh
   · obtain ⟨hn, h5, hlen, hp, rfl⟩ := wireV4_some _ _ h
-    have hoff : v4PortOff (p.drop (ipStart p)) = v4Ihl (p.drop (ipStart p)) * 4 := by
+    have hoff : v4PortOff (p.drop off) = v4Ihl (p.drop off) * 4 := by
       unfold v4PortOff; omega
-    have := hashTls_v4 p (ipStart p) rfl hn (by omega) hp (by omega)
+    have := hashTls_v4 p off hloc (by omega) hp (by omega)
     rw [hoff] at this
     exact this
   · obtain ⟨hn, hlen, hp, rfl⟩ := wireV6_some _ _ h
-    exact hashTls_v6 p (ipStart p) rfl hn (by omega) hp
+    exact hashTls_v6 p off hloc (by omega) hp
 
 
 theorem beNat_append_one (b : Bytes) (x : UInt8) : beNat (b ++ [x]) = beNat b * 256 + x.toNat := by
@@ -876,6 +994,13 @@ def wNib5b : Bytes := [0x02, 0x00, 0x00, 0x00, 0x00, 0x01, 0x02, 0x00, 0x00, 0x0
 def wOkA : Bytes := [0x02, 0x00, 0x00, 0x00, 0x00, 0x01, 0x02, 0x00, 0x00, 0x00, 0x00, 0x02, 0x08, 0x00, 0x45, 0x00, 0x00, 0x28, 0x12, 0x34, 0x40, 0x00, 0x40, 0x06, 0x00, 0x00, 0x0a, 0x00, 0x00, 0x01, 0x0a, 0x00, 0x00, 0x02, 0xc3, 0x50, 0x00, 0x50, 0x00, 0x00, 0x03, 0xe8, 0x00, 0x00, 0x00, 0x00, 0x50, 0x02, 0xff, 0xff, 0x00, 0x00, 0x00, 0x00]
 def wOkB : Bytes := [0x02, 0x00, 0x00, 0x00, 0x00, 0x01, 0x02, 0x00, 0x00, 0x00, 0x00, 0x02, 0x08, 0x00, 0x45, 0x00, 0x00, 0x2d, 0x12, 0x34, 0x40, 0x00, 0x40, 0x06, 0x00, 0x00, 0x0a, 0x00, 0x00, 0x01, 0x0a, 0x00, 0x00, 0x02, 0xc3, 0x50, 0x00, 0x50, 0x00, 0x00, 0x07, 0xd0, 0x00, 0x00, 0x00, 0x00, 0x50, 0x18, 0xff, 0xff, 0x00, 0x00, 0x00, 0x00, 0x68, 0x65, 0x6c, 0x6c, 0x6f]
 def wOkRev : Bytes := [0x02, 0x00, 0x00, 0x00, 0x00, 0x01, 0x02, 0x00, 0x00, 0x00, 0x00, 0x02, 0x08, 0x00, 0x45, 0x00, 0x00, 0x28, 0x12, 0x34, 0x40, 0x00, 0x40, 0x06, 0x00, 0x00, 0x0a, 0x00, 0x00, 0x02, 0x0a, 0x00, 0x00, 0x01, 0x00, 0x50, 0xc3, 0x50, 0x00, 0x00, 0x03, 0xe8, 0x00, 0x00, 0x00, 0x00, 0x50, 0x02, 0xff, 0xff, 0x00, 0x00, 0x00, 0x00]
+/-- the reverse direction of `wNull4a` (SYN-ACK 10.0.0.2:80 → 10.0.0.1:50000), loopback framing -/
+def wNull4Rev : Bytes := [0x1e, 0x00, 0x00, 0x00, 0x45, 0x00, 0x00, 0x28, 0x12, 0x34, 0x40, 0x00, 0x40, 0x06, 0x00, 0x00, 0x0a, 0x00, 0x00, 0x02, 0x0a, 0x00, 0x00, 0x01, 0x00, 0x50, 0xc3, 0x50, 0x00, 0x00, 0x03, 0xe8, 0x00, 0x00, 0x00, 0x00, 0x50, 0x12, 0xff, 0xff, 0x00, 0x00, 0x00, 0x00]
+/-- the reverse direction of `wRaw134a` (raw IPv4, SYN-ACK to 134.221.1.1) -/
+def wRaw134Rev : Bytes := [0x45, 0x00, 0x00, 0x28, 0x12, 0x34, 0x40, 0x00, 0x40, 0x06, 0x00, 0x00, 0x0a, 0x00, 0x00, 0x02, 0x86, 0xdd, 0x01, 0x01, 0x00, 0x50, 0xc3, 0x50, 0x00, 0x00, 0x03, 0xe8, 0x00, 0x00, 0x00, 0x00, 0x50, 0x12, 0xff, 0xff, 0x00, 0x00, 0x00, 0x00]
+/-- `1e 00 00 00` + IPv6, two data segments of [2001:db8::1]:50000 → [2001:db8::2]:443 -/
+def wNull6a : Bytes := [0x1e, 0x00, 0x00, 0x00, 0x60, 0x00, 0x00, 0x00, 0x00, 0x15, 0x06, 0x40, 0x20, 0x01, 0x0d, 0xb8, 0x00, 0x00, 0x00, 0x00, 0x00, 0x00, 0x00, 0x00, 0x00, 0x00, 0x00, 0x01, 0x20, 0x01, 0x0d, 0xb8, 0x00, 0x00, 0x00, 0x00, 0x00, 0x00, 0x00, 0x00, 0x00, 0x00, 0x00, 0x02, 0xc3, 0x50, 0x01, 0xbb, 0x00, 0x00, 0x03, 0xe8, 0x00, 0x00, 0x00, 0x00, 0x50, 0x18, 0xff, 0xff, 0x00, 0x00, 0x00, 0x00, 0x16]
+def wNull6b : Bytes := [0x1e, 0x00, 0x00, 0x00, 0x60, 0x00, 0x00, 0x00, 0x00, 0x17, 0x06, 0x40, 0x20, 0x01, 0x0d, 0xb8, 0x00, 0x00, 0x00, 0x00, 0x00, 0x00, 0x00, 0x00, 0x00, 0x00, 0x00, 0x01, 0x20, 0x01, 0x0d, 0xb8, 0x00, 0x00, 0x00, 0x00, 0x00, 0x00, 0x00, 0x00, 0x00, 0x00, 0x00, 0x02, 0xc3, 0x50, 0x01, 0xbb, 0x00, 0x00, 0x07, 0xd0, 0x00, 0x00, 0x00, 0x00, 0x50, 0x18, 0xff, 0xff, 0x00, 0x00, 0x00, 0x00, 0x16, 0x03, 0x01]
 /-- a simple hash function for the witnesses: weighted byte sums -/
 def bsum (b : Bytes) : Nat := b.foldl (fun a x => a + x.toNat) 0
 def sumH : HashIn → Nat
